@@ -138,3 +138,11 @@ contract('gnpy.core.elements.Fiber.chromatic_dispersion', props=['C05'],
          ensures=[('dispersion_times_length', 'forall(lambda i: at(result, i) == -(b2[i] + 2 * pi * b3[i] * (freq[i] - fr)) * 2 * pi * fr ** 2 / c0 '
                                               '* self.params._length, len(freq))')],
          use_at_calls=False, modifies=[])
+
+# the loss budget the design works with: fibre attenuation at the reference frequency, padding, both connectors, and every
+# lumped loss once, as a loss (LUMP_DB: the lumped factors are attenuations < 1, counted as 10 log10(1 / factor))
+contract('gnpy.core.elements.Fiber.loss', name='gnpy.core.elements.Fiber.loss[scalar loss coefficient]', props=['C05', 'C09', 'C08'],
+         params={'self': FIBER}, spec=SPEC_LUMP, use_at_calls=False,
+         ensures=[('budget', 'result == LC(self) * self.params._length + self.params._con_in + self.params._con_out + self.params._att_in '
+                             '+ LUMP_DB(self)')],
+         modifies=[])
